@@ -99,7 +99,7 @@ def corpus():
 
 def generated(rng, tier):
     """extra problems drawn from ctx.rng (string keyed: the class on which hash order can show)"""
-    k = 2 if tier == "quick" else 8
+    k = 1 if tier == "quick" else 8
     out = {c: [] for c in COMPONENTS}
     for _ in range(k):
         def rp(**kw):
